@@ -36,6 +36,8 @@ func runC01(p *Prog, r *Report) {
 	r.Explain = append(r.Explain, "R-COVIDX: every array access whose index is a Coverage index (first result of Coverage.Index, followed through conversions, phis and arguments of module functions, one obligation per call site when the array is a parameter) is bounded by a test in its function (P-LIN) or by a sanitizer pair: a function called when the font is loaded compares len(<the indexed field>) with <the coverage field>.Len(), matched by the identity of the two struct fields; and the loader dispatches the sanitizers on each subtable as it is AFTER extensions have been resolved (R-COVIDX/resolved).")
 	ruleCovIdx(p, r)
 	ruleExtSan(p, r)
+	r.Explain = append(r.Explain, "R-FONTIDX: in the shaper, an index read directly from a field of a font table (SequenceLookupRecord.SequenceIndex, LangSys.RequiredFeatureIndex) is compared with an upper bound and the array access is only reached through the in-range branch, or the field is one the loader replaces when out of range (the named sanitizer is checked to compare and store the field).")
+	ruleFontIdx(p, r, "harfbuzz", []string{"font/opentype/tables", "font"}, map[string]fnRef{"LangSys.RequiredFeatureIndex": {"font", "", "sanitizeLangSys"}}, 6)
 	nilExplain(r)
 	ruleNil(p, r, "R-NIL", p.pkgPath("font/opentype/tables"), []string{p.pkgPath("harfbuzz")}, 20, 30)
 	r.Assumptions = append(r.Assumptions,
@@ -397,6 +399,9 @@ func nilExplain(r *Report) {
 }
 
 func controlsC01(cp *Prog, r *Report) {
+	expectControl(r, "R-FONTIDX", func(cr *Report) {
+		ruleFontIdx(cp, cr, "fidx", []string{"fidx"}, map[string]fnRef{"langSys.Required": {"fidx", "", "sanitize"}}, 3)
+	}, "fidx.applyBad/record.SeqIndex")
 	controlsRec(cp, r)
 	controlsNil(cp, r)
 	expectControl(r, "R-SYNC", func(cr *Report) {
